@@ -34,8 +34,8 @@ import (
 var capPool, capSender, capLast = 3, 2, 2
 
 const (
-	tExp      = int64(4102444800) // 2100-01-01: block-time expiry of a3; header times sit around it
-	hExp      = int64(3)          // height expiry of a2: expired for next block when header height >= 2
+	tExp = int64(4102444800) // 2100-01-01: block-time expiry of a3; header times sit around it
+	hExp = int64(3)          // height expiry of a2: expired for next block when header height >= 2
 )
 
 var (
@@ -47,6 +47,8 @@ var (
 	txs        []*types.Transaction // a1 a2 a3 b1 b2 g
 	txName     = []string{"a1", "a2(exp h3)", "a3(exp T)", "b1", "b2", "g(B+A)"}
 	groupParts []*types.Transaction
+	universe   [][]byte // hashes every lookup is tried with (set per harness)
+	colliders  []*types.Transaction
 	idOf       = map[string]string{} // hash -> short name
 	blocks     []*types.Block
 	blockName  = []string{"K1(h1,T-10;a1,b1)", "K2(h2,T-5;a2,g0,g1)", "K3(h3,T;b2,a3)", "K1'(h1,T-10;g0,g1,a3)"}
@@ -109,6 +111,17 @@ func setup() {
 		idOf[string(t.Hash())] = strings.SplitN(txName[i], "(", 2)[0]
 	}
 	idOf[string(g1.Hash())] = "g1"
+	for _, t := range txs {
+		universe = append(universe, t.Hash())
+	}
+	universe = append(universe, g1.Hash())
+	// two transactions whose hashes share the first 5 bytes (= the short hash); the nonces were found
+	// by a birthday search over this very transaction template (the hash does not cover the signature)
+	c1, c2 := mkTx(1099512535850, 100000, 0, addrB), mkTx(1099513404161, 100000, 0, addrB)
+	c1.Sign(types.SECP256K1, privA)
+	c2.Sign(types.SECP256K1, privB)
+	colliders = []*types.Transaction{c1, c2}
+	idOf[string(c1.Hash())], idOf[string(c2.Hash())] = "c1", "c2"
 	blocks = []*types.Block{
 		{Height: 1, BlockTime: tExp - 10, Txs: []*types.Transaction{a1, b1}},
 		{Height: 2, BlockTime: tExp - 5, Txs: []*types.Transaction{a2, g0, g1}},
@@ -223,7 +236,8 @@ func main() {
 	mk := func(c pc) *vx.Seq[*sys] {
 		capPool, capSender, capLast = c.pool, c.sender, c.last
 		q := &vx.Seq[*sys]{Run: r, Name: fmt.Sprintf("cap%d-sender%d-last%d", c.pool, c.sender, c.last), NumOps: numOps, MaxDepth: r.Pick(6, 14), Workers: runtime.NumCPU(), OpName: opName}
-		q.New = newSys
+		main := universe
+		q.New = func() *sys { universe = main; return newSys() }
 		q.Close = func(s *sys) {
 			select {
 			case envFree <- s.e:
@@ -236,15 +250,22 @@ func main() {
 		q.FP = func(what string, h []int) string { return "book:" + vx.Norm(what, 56) }
 		return q
 	}
+	cq := mkCollide(r)
 	if raw, ok := r.Replaying(); ok {
 		var c struct {
 			Harness string
 			Hist    []int
 		}
 		json.Unmarshal(raw, &c)
-		var k pc
-		fmt.Sscanf(c.Harness, "cap%d-sender%d-last%d", &k.pool, &k.sender, &k.last)
-		if f := mk(k).ReplayHist(c.Hist); f != "" {
+		var f string
+		if c.Harness == "collide" {
+			f = cq.ReplayHist(c.Hist)
+		} else {
+			var k pc
+			fmt.Sscanf(c.Harness, "cap%d-sender%d-last%d", &k.pool, &k.sender, &k.last)
+			f = mk(k).ReplayHist(c.Hist)
+		}
+		if f != "" {
 			fmt.Println("replay: FAIL", f)
 			r.Violate("replay", f, c, nil)
 		} else {
@@ -254,6 +275,9 @@ func main() {
 	}
 	for _, c := range confs {
 		mk(c).Explore()
+	}
+	if colliders != nil {
+		cq.Explore()
 	}
 	r.Floors["outcomes"] = 14
 	r.Floors["states"] = 300
@@ -443,13 +467,11 @@ func check(s *sys) string {
 		}
 		prev = p
 	}
-	// hash lookups, long and short, for every transaction of the universe
+	// hash lookups, long and short, for every transaction of the universe. Two transactions may
+	// share a short hash (the "collide" harness forces that): the short lookup then has to return
+	// some pool transaction with that short hash, and nothing when the pool holds none.
 	var long, short []string
-	var uni [][]byte
-	for _, t := range txs {
-		uni = append(uni, t.Hash())
-	}
-	uni = append(uni, groupParts[1].Hash())
+	uni := universe
 	for _, h := range uni {
 		long = append(long, string(h))
 		short = append(short, types.CalcTxShortHash(h))
@@ -459,20 +481,35 @@ func check(s *sys) string {
 	if len(rl.Txs) != len(uni) || len(rs.Txs) != len(uni) {
 		return "getTxListByHash reply length differs from the request"
 	}
+	shorts := map[string]bool{}
+	for _, it := range items {
+		shorts[types.CalcTxShortHash(it.Tx.Hash())] = true
+	}
 	for i, h := range uni {
 		_, in := pos[string(h)]
-		for k, t := range []*types.Transaction{rl.Txs[i], rs.Txs[i]} {
-			kind := []string{"hash", "short-hash"}[k]
-			if in && (t == nil || !bytes.Equal(t.Hash(), h)) {
-				return kind + " lookup does not find " + idOf[string(h)] + " which is in the pool"
+		if t := rl.Txs[i]; in && (t == nil || !bytes.Equal(t.Hash(), h)) {
+			return "hash lookup does not find " + idOf[string(h)] + " which is in the pool"
+		} else if !in && t != nil {
+			return "hash lookup returns " + idOf[string(h)] + " which is not in the pool"
+		}
+		t := rs.Txs[i]
+		if t != nil {
+			if _, ok := pos[string(t.Hash())]; !ok {
+				return "short-hash lookup returns " + idOf[string(t.Hash())] + " which is not in the pool"
 			}
-			if !in && t != nil {
-				return kind + " lookup returns " + idOf[string(h)] + " which is not in the pool"
+			if types.CalcTxShortHash(t.Hash()) != short[i] {
+				return "short-hash lookup returns a transaction with a different short hash"
 			}
 		}
+		if in && t == nil {
+			return "short-hash lookup does not find " + idOf[string(h)] + " which is in the pool"
+		}
+		if !in && t != nil && !shorts[short[i]] {
+			return "short-hash lookup returns a transaction for a short hash nothing in the pool has"
+		}
 	}
-	if n := mempool.V21ShortIndexSize(mem); n != len(items) {
-		return fmt.Sprintf("short-hash index holds %d entries, the pool %d", n, len(items))
+	if n := mempool.V21ShortIndexSize(mem); n != len(shorts) {
+		return fmt.Sprintf("short-hash index holds %d entries, the pool holds %d distinct short hashes", n, len(shorts))
 	}
 	if b := mem.GetTotalCacheBytes(); b != bytesSum {
 		return fmt.Sprintf("GetTotalCacheBytes=%d, contents sum to %d", b, bytesSum)
@@ -492,4 +529,105 @@ func check(s *sys) string {
 	mempool.V21All(mem, false)
 	mem.GetProperFeeRate(nil)
 	return ""
+}
+
+// mkCollide is a second, small harness: the same pool and the same oracle, over a universe of two
+// transactions of different senders whose hashes share the 5-byte short hash, plus a1.
+func mkCollide(r *vx.Run) *vx.Seq[*sys] {
+	if types.CalcTxShortHash(colliders[0].Hash()) != types.CalcTxShortHash(colliders[1].Hash()) || bytes.Equal(colliders[0].Hash(), colliders[1].Hash()) {
+		r.Note("the two prepared transactions no longer share a short hash (transaction encoding changed?): collision harness skipped")
+		colliders = nil
+		return nil
+	}
+	u := []*types.Transaction{colliders[0], colliders[1], txs[0]}
+	names := []string{"c1", "c2", "a1"}
+	blk := &types.Block{Height: 1, BlockTime: tExp - 10, Txs: []*types.Transaction{colliders[0]}}
+	q := &vx.Seq[*sys]{Run: r, Name: "collide", NumOps: 7, MaxDepth: r.Pick(5, 8), Workers: 1}
+	q.OpName = func(i int) string {
+		switch {
+		case i < 3:
+			return "Push(" + names[i] + ")"
+		case i < 6:
+			return "RemoveTxs(" + names[i-3] + ")"
+		}
+		return "AddBlock(h1;c1)"
+	}
+	q.New = func() *sys {
+		capPool, capSender, capLast = 3, 2, 2
+		universe = [][]byte{u[0].Hash(), u[1].Hash(), u[2].Hash()}
+		return newSys()
+	}
+	q.Close = func(s *sys) {
+		select {
+		case envFree <- s.e:
+		default:
+		}
+	}
+	q.Apply = func(s *sys, i int) string {
+		switch {
+		case i < 3:
+			err := s.mem.PushTx(u[i])
+			r.Seen("outcomes", fmt.Sprint("collide-push:", err))
+		case i < 6:
+			s.mem.RemoveTxs(&types.TxHashList{Hashes: [][]byte{u[i-3].Hash()}})
+		default:
+			mempool.V21EventAddBlock(s.mem, blk)
+			if mempool.V21Exist(s.mem, u[0].Hash()) {
+				return "transaction c1 of the added block is still in the pool"
+			}
+		}
+		return ""
+	}
+	q.Check = check
+	q.Canon = func(s *sys) string {
+		idx := "-"
+		if l := mempool.V21GetTxListByHash(s.mem, &types.ReqTxHashList{Hashes: []string{types.CalcTxShortHash(u[0].Hash())}, IsShortHash: true}); l.Txs[0] != nil {
+			idx = idOf[string(l.Txs[0].Hash())]
+		}
+		return canon(s) + " short->" + idx
+	}
+	q.FP = func(what string, h []int) string {
+		// which of the two held the index entry when the last event removed one of them
+		owner, in := -1, map[int]bool{}
+		var before int
+		for _, o := range h {
+			before = owner
+			t := -1
+			switch {
+			case o < 3:
+				if !in[o] {
+					in[o] = true
+					if o < 2 && owner < 0 {
+						owner = o
+					}
+				}
+				continue
+			case o < 6:
+				t = o - 3
+			default:
+				t = 0
+			}
+			if in[t] {
+				delete(in, t)
+				if t < 2 {
+					owner = -1 // the code deletes the short-hash key whoever owns it
+				}
+			}
+		}
+		last := h[len(h)-1]
+		removed := -1
+		if last >= 3 && last < 6 {
+			removed = last - 3
+		} else if last == 6 {
+			removed = 0
+		}
+		if strings.Contains(what, "short-hash") && removed >= 0 && removed < 2 && in[1-removed] {
+			if before == 1-removed {
+				return "shorthash-collision:removing-the-unindexed-transaction-deletes-the-entry-of-the-indexed-one"
+			}
+			return "shorthash-collision:second-transaction-stays-unindexed-after-the-indexed-one-leaves"
+		}
+		return "book:collide:" + vx.Norm(what, 48)
+	}
+	return q
 }
